@@ -94,8 +94,6 @@ def make_variant(base, rng, reference=False):
     ext = (".fastq" if v["fmt"] == "fastq" else ".fasta") if reference else rng.choice(
         ([".fastq", ".fq", ""] if v["fmt"] == "fastq" else [".fasta", ".fa", ""]))
     comments = rng.randint(1, 2) if (v["fmt"] == "fasta" and not reference and rng.random() < 0.3) else 0
-    if layout == "two" and cores > 1:
-        comments = 0  # known finding KF-C06-3 (owned by the C06 check)
     v["input"] = {"layout": layout, "ext": ext, "containers": conts, "members": members, "comments": comments}
     v["member_seed"] = rng.randrange(1 << 30)
     dims.update(layout=layout, containers=conts, members=members, cores=cores, comments=comments)
